@@ -10,7 +10,7 @@ MODES = {'plain': 5, 'racing_try': 4, 'local': 2, 'hooks': 1}
 
 def run(chk):
     ok = core.standard_proof_phase(chk, "C03", gen_needed=("ResultGen",))
-    chk.notes["system_theorems"] = ["c03_rows_are_reference_partial", "c03_independent", "c03_summary_faithful", "c03_complete_when_fault_free", "c03_rows_consistent", "c03_final_results_independent", "c03_acyclicb_sound", "c03_complete_when_checked"]
+    chk.notes["system_theorems"] = ["c03_rows_are_reference_partial", "c03_independent", "c03_summary_faithful", "c03_complete_when_fault_free", "c03_rows_consistent", "c03_final_results_independent", "c03_acyclicb_sound", "c03_complete_when_checked", "c03_rows_are_the_reference", "c03_final_results_are_the_reference"]
     chk.notes["partial"] = "proved: rows = reference outcome, independence, summary faithful, completeness of every fault-free acyclic run that reaches its summary (c03_complete_when_fault_free; hypothesis SystemFault.fault_free evaluated on every fault-free impl trace). NOT proved in Coq: that the run reaches the summary (termination; acceptor has no scheduling) and local mode (outside the system model): decided on impl by the oracle results == reference evaluation over all explored schedules, parameter sets and local mode; exit status propagation is C19"
     syscheck.system_phase(chk, "C03", MODES, n_quick=200, n_thorough=4000, also=("C04",), directed=("try_races_with_last_node", "collector_reads_running_batch"))
 
